@@ -305,7 +305,7 @@ fn main() {
     let prop = Property {
         id: "C13",
         level: "exploration",
-        rule: "small grid enumerated completely: 1..3 queues x 1..3 objects per queue x object size pattern (sizes from {0, 1 symbol, 1 block, 3 unequal blocks}, rotated) x multiplex_files 0..3 x interleave_blocks 1..4 x publish mode with all objects added before the first read; two-queue workloads with a high-priority object added at EVERY packet index of the low-priority transmission; seeded random larger workloads (<= 6 queues, <= 20 objects); workloads in which objects that are sent several times (transfer count 2-3, carousel) are re-queued around single-transfer objects added and published at different packet indices / times. Four stream invariants judged on the independently decoded stream: strict priority (no lower-queue packet while a ready higher-queue object still has packets - or is never sent at all), FIFO admission, multiplex bound and round-robin alternation, interleave window and increasing block opening; a case is one workload, non-trivial when object packets were observed; distinct = workload parameters; carousel_ready: carousel objects (delay / interval 150 ms .. 2.3 s) in the high-priority queue, long objects in the low one, 1-3 reads per poll every 30-170 ms - between the end of a round and the start of the next no low-priority packet is emitted later than the round's reference instant + delay",
+        rule: "small grid enumerated completely: 1..3 queues x 1..3 objects per queue x object size pattern (sizes from {0, 1 symbol, 1 block, 3 unequal blocks}, rotated) x multiplex_files 0..3 x interleave_blocks 1..4 x publish mode with all objects added before the first read; two-queue workloads with a high-priority object added at EVERY packet index of the low-priority transmission; seeded random larger workloads (<= 6 queues, <= 20 objects); workloads in which objects that are sent several times (transfer count 2-3, carousel) are re-queued around single-transfer objects added and published at different packet indices / times. Four stream invariants judged on the independently decoded stream: strict priority (no lower-queue packet while a ready higher-queue object still has packets - or is never sent at all), FIFO admission, multiplex bound and round-robin alternation, interleave window and increasing block opening; a case is one workload, non-trivial when object packets were observed; distinct = workload parameters; carousel_ready: carousel objects (delay / interval 150 ms .. 2.3 s) in the high-priority queue, long objects in the low one, 1-3 reads per poll every 30-170 ms - between the end of a round and the start of the next no low-priority packet is emitted later than the round's reference instant + delay; fdt_too_small_for_the_slots: ObjectsBeingTransferred mode, 2-3 multiplex slots, a session OTI that cannot carry an instance listing two objects - start order = add order",
         assumptions: vec![
             "single-transfer objects use no start time or pacing, so ready = added (and published in full-FDT mode) with packets left; objects sent several times are judged as senders only".into(),
             "round-robin is judged through a sound consequence (an object in transmission across a whole gap of another sends inside the gap), not the rotation order".into(),
